@@ -13,6 +13,8 @@ claimed = {
  "C01": ("symx: observed value = from-scratch term, validity query per observer per stabilise", "5/C01"),
  "C02": ("symx: per-stabilise invocation count and argument terms vs. final input values", "5/C02"),
  "C03": ("symx: captured-lhs = current-lhs validity query per scope-node invocation; generation model for invalidity", "5/C03"),
+ "C04": ("symx: every action under catch_unwind over graph/bind/garbage/late-node templates, both build profiles", "5/C04"),
+ "C06": ("symx: symbolic cutoff-kind assignment, per-node last-result reference model, invocation sets compared both ways", "5/C06"),
  "C05": ("symx: invocation log vs. dependency cone of live observers", "5/C05"),
  "C07": ("symx: every observer read after every action vs. last snapshot", "5/C07"),
  "C09": ("symx: expected notification per subscription derived from the reference, solver-decided change", "5/C09"),
